@@ -132,7 +132,10 @@ def stepJ (j : J) : Ev → Except String J
       if uids.any (fun u => j.offl.count (m, u) + 1 > j.presOk.count (m, u)) then .error "offline-duplicate" else
       .ok { j with offl := uids.map (fun u => (m, u)) ++ j.offl }
   | .stopCall => .ok j
-  | .stopRet ok => .ok { j with stopOk := ok }
+  | .stopRet ok =>
+    -- a plan whose admission had returned before Stop returned nil has been processed (Stop drains)
+    if ok && j.msgs.any (fun p => j.presCnt.count p.1 < j.enqCnt.count p.1) then .error "plan-not-processed-at-stop" else
+    .ok { j with stopOk := ok }
 
 /-- end-of-case check (only meaningful after a clean Stop: every accepted plan has completed) -/
 def finalJ (j : J) : Except String Unit :=
